@@ -1,6 +1,6 @@
 From Coq Require Import List Arith Lia Bool.
 Import ListNotations.
-Require Import ScanFull InstsFull Pass ObligJoin ObligGroups C04Join C11Groups C05Join C02Join PassProofs.
+Require Import ScanFull InstsFull Pass ObligJoin ObligGroups C04Join C11Groups C05Join C02Join PassProofs C09Zip C08Merge C08Eager.
 
 (* A Prop-valued trace statement gets a boolean decision function and a reflection lemma, so that the extracted function can be run on the
    implementation's trace as the monitor of §5.4.  Demonstrated for the ledger of the join family. *)
@@ -162,3 +162,96 @@ Theorem wait_b_holds stream scs ops :
   dropped _ w = false -> wait_b (strip (tr _ w)) = true.
 Proof. intros w Hd. eapply wait_b_of_Pw. exact (C19_wait_until stream scs ops Hd). Qed.
 Print Assumptions race_b_holds. Print Assumptions wait_b_holds.
+
+(* ---- C10 (chain) and C09 (zip) as boolean predicates over the trace ---- *)
+Definition chain_b (t: list ev) : bool :=
+  let P := polls_from 0 t in
+  match runC P with
+  | Some _ => outs_eqb (results t) (itemsC P) || outs_eqb (results t) (itemsC P ++ [ONone])
+  | None => false
+  end.
+Lemma chain_b_of_Pc s fin t : Pc s fin t -> chain_b t = true.
+Proof.
+  intros (_ & Hr & Hres & _). unfold chain_b. rewrite Hr, Hres. destruct fin; apply orb_true_iff; [right|left; rewrite app_nil_r]; apply outs_eqb_spec; reflexivity.
+Qed.
+Theorem chain_b_holds scs ops :
+  let n := length scs in
+  let w := fold_left (p_step cst chain_poll (fun s => drops_all (c_n s))) ops (mk_world {| c_idx := 0; c_n := n |} false n scs) in
+  dropped _ w = false -> chain_b (strip (tr _ w)) = true.
+Proof. intros n w Hd. eapply chain_b_of_Pc. exact (C10_chain scs ops Hd). Qed.
+
+(* zip: every row has n columns; column j of the rows is a prefix of the items input j answered, with at most one item ahead; without an End the
+   results are exactly the rows; with an End it is the last poll ever made, and the results are the rows followed by None *)
+Definition ahead1_b (cl items: list nat) : bool := nl_eqb cl (firstn (length cl) items) && (length items <=? length cl + 1).
+Lemma ahead1_b_intro cl buf : length buf <= 1 -> ahead1_b cl (cl ++ buf) = true.
+Proof.
+  intros H. unfold ahead1_b. rewrite firstn_app, firstn_all, Nat.sub_diag. cbn. rewrite app_nil_r, app_length.
+  apply andb_true_iff. split; [apply nl_eqb_spec; reflexivity|apply Nat.leb_le; lia].
+Qed.
+Definition rows_of (rs: list out) : list (list nat) := flat_map (fun o => match o with OSome None vs => [vs] | _ => [] end) rs.
+Definition zip_b (n: nat) (t: list ev) : bool :=
+  let P := polls_from 0 t in
+  let cols P' rs := forallb (fun r => length r =? n) rs && forallb (fun j => ahead1_b (col j rs) (itemsl j P')) (seq 0 n) in
+  match ends P with
+  | [] => cols P (rows t) && outs_eqb (results t) (map (OSome None) (rows t))
+  | _ => match rev P with
+         | (i, AEnd) :: P0r => nl_eqb (ends (rev P0r)) [] && cols (rev P0r) (rows t) && outs_eqb (results t) (map (OSome None) (rows t) ++ [ONone])
+         | _ => false
+         end
+  end.
+Lemma rows_results t : rows t = rows_of (results t).
+Proof.
+  induction t as [|e t IH]; cbn [rows results rows_of flat_map]; auto. destruct e; cbn [rows results rows_of flat_map app]; auto; fold (rows t); fold (results t); fold (rows_of (results t)); auto.
+  destruct o as [| | | |[k|] vs|]; cbn [app]; rewrite ?IH; auto.
+Qed.
+Lemma rows_of_map rs : rows_of (map (OSome None) rs) = rs.
+Proof. unfold rows_of. induction rs as [|r rs IH]; cbn; [reflexivity|f_equal; exact IH]. Qed.
+Lemma rows_of_app a b : rows_of (a ++ b) = rows_of a ++ rows_of b. Proof. apply flat_map_app. Qed.
+Lemma ends_app' a b : ends (a ++ b) = ends a ++ ends b. Proof. apply flat_map_app. Qed.
+Lemma zip_b_of_Tz n s t : Tz n s t -> zip_b n t = true.
+Proof.
+  intros [(Hd & Hl1 & Hl2 & Hsl & Hrows & Hends & Hres)|(Hd & P0 & i & rs & Hp & He0 & Hres & Hrl & Hbuf)]; unfold zip_b.
+  - rewrite Hends. apply andb_true_iff. split; [|apply outs_eqb_spec; exact Hres]. apply andb_true_iff. split.
+    + apply forallb_forall. intros r Hr. rewrite Forall_forall in Hrows. apply Nat.eqb_eq, Hrows, Hr.
+    + apply forallb_forall. intros j Hj. apply in_seq in Hj. destruct (Hsl j ltac:(lia)) as [E _]. rewrite E. apply ahead1_b_intro.
+      destruct (nth j (z_out s) None); cbn; lia.
+  - assert (Erows : rows t = rs) by (rewrite rows_results, Hres, rows_of_app, rows_of_map; cbn; apply app_nil_r).
+    rewrite Hp, ends_app', He0. cbn [ends flat_map snd fst app].
+    rewrite rev_app_distr. cbn [rev app]. rewrite rev_involutive, He0, Erows. cbn [nl_eqb andb].
+    apply andb_true_iff. split; [|apply outs_eqb_spec; exact Hres]. apply andb_true_iff. split.
+    + apply forallb_forall. intros r Hr. rewrite Forall_forall in Hrl. apply Nat.eqb_eq, Hrl, Hr.
+    + apply forallb_forall. intros j Hj. apply in_seq in Hj. destruct (Hbuf j ltac:(lia)) as (buf & E & Hb). rewrite E. apply ahead1_b_intro. exact Hb.
+Qed.
+Theorem zip_b_holds selective scs ops : let w := zip_run' selective scs ops in
+  dropped _ w = false -> zip_b (length scs) (strip (tr _ w)) = true.
+Proof. intros w Hd. eapply zip_b_of_Tz. exact (C09_zip selective scs ops Hd). Qed.
+Print Assumptions chain_b_holds. Print Assumptions zip_b_holds.
+
+(* ---- C08: exactly-once on the trace, from the eager automaton: the values merge yielded are, in order, the item values its inputs answered ---- *)
+Definition avals (t: list ev) : list nat := flat_map (fun e => match e with EAns (AItem v) => [v] | _ => [] end) t.
+Definition yvals (t: list ev) : list nat := flat_map (fun e => match e with EEndR (OSome _ [v]) => [v] | _ => [] end) t.
+Definition pre_of (p: option nat) : list nat := match p with Some v => [v] | None => [] end.
+Lemma estep_none l : fold_left estep l None = None.
+Proof. induction l as [|e l IH]; cbn [fold_left estep]; auto. Qed.
+Lemma estep_exact t : forall p q, fold_left estep t (Some p) = Some q -> pre_of p ++ avals t = yvals t ++ pre_of q.
+Proof.
+  pose proof estep_none as Hnone.
+  induction t as [|e t IH]; intros p q H; cbn [fold_left] in H.
+  - inversion H; subst. cbn. rewrite app_nil_r. reflexivity.
+  - destruct (estep (Some p) e) as [p'|] eqn:E; [|rewrite Hnone in H; discriminate]. specialize (IH p' q H).
+    cbn [avals yvals flat_map]. fold (avals t). fold (yvals t).
+    destruct e; cbn [estep] in E;
+      repeat match type of E with context[match ?x with _ => _ end] => destruct x eqn:?; try discriminate end;
+      inversion E; subst p'; cbn [app pre_of] in *;
+      repeat match goal with Hq : (_ =? _) = true |- _ => apply Nat.eqb_eq in Hq; subst end;
+      first [exact IH | rewrite IH; reflexivity].
+Qed.
+Theorem eager_exact t : eager_b t = true -> yvals t = avals t.
+Proof.
+  unfold eager_b, efold. destruct (fold_left estep t (Some None)) as [[v|]|] eqn:E; try discriminate. intros _.
+  pose proof (estep_exact t None None E) as H. cbn in H. rewrite app_nil_r in H. symmetry. exact H.
+Qed.
+Theorem merge_yields_are_items selective scs ops : let w := merge_run_fixed selective scs ops in
+  dropped _ w = false -> yvals (strip (tr _ w)) = avals (strip (tr _ w)).
+Proof. intros w Hd. apply eager_exact. exact (C08_eager selective scs ops Hd). Qed.
+Print Assumptions merge_yields_are_items.
